@@ -648,8 +648,10 @@ SPEC["C15"] = {
    SETACTIVE, DELETESCRIPT: up to five commands in one call; abstractly RenameAbs.rename_abs, whose safety is C14).
    C15_session_refines_spec: every session on which the specification is defined, of any length, returns exactly
    the specified values and leaves the server with the specified data and both buffers empty, for any fuel above
-   the size of the store plus the length of the session.  GETSCRIPT of a missing script and LOGOUT / CAPABILITY
-   are covered by the correspondence check only.""",
+   the size of the store plus the length of the session.  GETSCRIPT of a script that does not exist (NO
+   NONEXISTENT, the call returns None and mirrors the code) and LOGOUT are part of the specification
+   (C15_getscript_missing, C15_logout); CAPABILITY and the connection phase are covered by the correspondence
+   check (and C16 / C10) only.""",
     "imports": MS_IMPORTS + "From SV Require Import RenameAbs RenameData Spec SessionRename.\n",
     "theorems": [
         ("C15_server_receives_one_command", "SessionFacts.srv_react_simple",
@@ -666,6 +668,9 @@ SPEC["C15"] = {
          "LISTSCRIPTS end to end against the reference server"),
         ("C15_getscript", "SessionData.getscript_against_server",
          "GETSCRIPT of an existing script end to end"),
+        ("C15_getscript_missing", "SessionData.getscript_missing_k_gen",
+         "GETSCRIPT of a script that does not exist: None, errcode NONEXISTENT, the server's data untouched"),
+        ("C15_logout", "SessionData.logout_k_gen", "LOGOUT: answered OK, the call returns None"),
         ("C15_session_with_data", "SessionData.session_with_data",
          "sessions of all eight operations, any length, any encoding choices"),
         ("C15_session_with_data_example", "SessionData.session_data_example",
